@@ -21,6 +21,30 @@ theorem ipv4_total (s : Str) :
       fmtIpv4 (.str s) = .raise ["AddressValueError", "ValueError", "Exception", "BaseException", "object"] := by
   exact Fmt.fmtIpv4_cases s
 
+/-! ### ipv6 -/
+
+/-- `is_ipv6` accepts exactly the RFC 4291 §2.2 text forms: eight groups of 1–4 hex digits, or one
+    `::` standing for one or more groups, in either case optionally with the last two groups written
+    as a dotted quad; nothing else (in particular no zone id and no prefix length). -/
+theorem ipv6_iff_grammar (s : Str) : fmtIpv6 (.str s) = .ret true ↔ Spec.isIpv6Text s := by
+  exact Fmt.fmtIpv6_iff s
+
+def ipv6_iff_grammar_statement : Prop :=
+  ∀ s : Str, fmtIpv6 (.str s) = .ret true ↔ Spec.isIpv6Text s
+
+theorem ipv6_iff_grammar_holds : ipv6_iff_grammar_statement := ipv6_iff_grammar
+
+/-- On every string `is_ipv6` returns a boolean or raises `AddressValueError` — nothing else. -/
+theorem ipv6_total (s : Str) :
+    (∃ b, fmtIpv6 (.str s) = .ret b) ∨
+      fmtIpv6 (.str s) = .raise ["AddressValueError", "ValueError", "Exception", "BaseException", "object"] := by
+  exact Fmt.fmtIpv6_cases s
+
+/-- An accepted string has neither a zone id (`%…`) nor a prefix length (`/…`). -/
+theorem ipv6_no_zone_no_prefix (s : Str) (h : fmtIpv6 (.str s) = .ret true) : '%' ∉ s ∧ '/' ∉ s := by
+  have hp := Fmt.isIpv6Text_plain s ((ipv6_iff_grammar s).mp h)
+  exact ⟨fun hm => (hp _ hm).2 rfl, fun hm => (hp _ hm).1 rfl⟩
+
 /-! ### date -/
 
 /-- The full statement against RFC 3339 `full-date`. It is FALSE: see `date_counterexample_year0`. -/
@@ -95,6 +119,34 @@ example : fmtIpv4 (.str "1.2.3.4/8".toList) = .raise addrValueErrorMro := by dec
 example : fmtIpv4 (.str "1.2.3.٤".toList) = .raise addrValueErrorMro := by decide +kernel
 example : fmtIpv4 (.num (.int 5)) = .ret true := by decide +kernel
 example : Spec.isIpv4Text "10.0.0.255".toList := ⟨10, 0, 0, 255, by decide +kernel⟩
+example : fmtIpv6 (.str "::".toList) = .ret true := by decide +kernel
+example : fmtIpv6 (.str "::1".toList) = .ret true := by decide +kernel
+example : fmtIpv6 (.str "1::".toList) = .ret true := by decide +kernel
+example : fmtIpv6 (.str "2001:db8::8:800:200C:417A".toList) = .ret true := by decide +kernel
+example : fmtIpv6 (.str "1:2:3:4:5:6:7:8".toList) = .ret true := by decide +kernel
+example : fmtIpv6 (.str "1:2:3:4:5:6:7::".toList) = .ret true := by decide +kernel
+example : fmtIpv6 (.str "::ffff:129.144.52.38".toList) = .ret true := by decide +kernel
+example : fmtIpv6 (.str "1:2:3:4:5:6:1.2.3.4".toList) = .ret true := by decide +kernel
+example : fmtIpv6 (.str "1:2:3:4:5:6:7::8".toList) = .raise addrValueErrorMro := by decide +kernel
+example : fmtIpv6 (.str "1:2:3:4:5:6:7:1.2.3.4".toList) = .raise addrValueErrorMro := by decide +kernel
+example : fmtIpv6 (.str "1::2::3".toList) = .raise addrValueErrorMro := by decide +kernel
+example : fmtIpv6 (.str ":::".toList) = .raise addrValueErrorMro := by decide +kernel
+example : fmtIpv6 (.str "12345::".toList) = .raise addrValueErrorMro := by decide +kernel
+example : fmtIpv6 (.str "::1.2.3.256".toList) = .raise addrValueErrorMro := by decide +kernel
+example : fmtIpv6 (.str "::1/64".toList) = .raise addrValueErrorMro := by decide +kernel
+example : fmtIpv6 (.str "::1%".toList) = .raise addrValueErrorMro := by decide +kernel
+example : fmtIpv6 (.str "::1%eth0".toList) = .ret false := by decide +kernel
+example : fmtIpv6 (.str "zz%eth0".toList) = .raise addrValueErrorMro := by decide +kernel
+example : fmtIpv6 .null = .ret true := by decide +kernel
+example : Spec.isIpv6Text "::1".toList :=
+  .inr ⟨[], ["1".toList], none, by simp, by intro g hg; simp at hg; subst hg; unfold Spec.isHexGroup; decide,
+    by simp, by decide, by decide⟩
+example : Spec.isIpv6Text "1:2:3:4:5:6:7:8".toList := (ipv6_iff_grammar _).mp (by decide +kernel)
+example : Spec.isIpv6Text "::ffff:129.144.52.38".toList := (ipv6_iff_grammar _).mp (by decide +kernel)
+example : ¬ Spec.isIpv6Text "1:2:3:4:5:6:7::8".toList :=
+  fun h => absurd ((ipv6_iff_grammar _).mpr h) (by decide +kernel)
+example : ¬ Spec.isIpv4Text "1.2.3.04".toList :=
+  fun h => absurd ((ipv4_iff_grammar _).mpr h) (by decide +kernel)
 example : fmtDate (.str "2024-02-29".toList) = .ret true := by decide +kernel
 example : fmtDate (.str "2023-02-29".toList) = .raise valueErrorMro := by decide +kernel
 example : fmtDate (.str "1900-02-29".toList) = .raise valueErrorMro := by decide +kernel
